@@ -528,6 +528,13 @@ def result_eq(E, got, want):
     """Python-level equality of a result with the required value, identity for heap objects"""
     if want is NOTHING:
         return True
+    from pyvc import interp as _I
+    if isinstance(got, _I.GenIter):
+        got = tuple(got.items)                 # an (eagerly evaluated) generator is compared as the tuple it yields
+    elif isinstance(got, _I._GenOutIter):
+        got = got.seq
+        if isinstance(got, SSeq) and got.kind != "tuple":
+            got = SSeq(got.t, "tuple", got.elem, rng=got.rng)
     if isinstance(want, Is):
         if hasattr(want.obj, "t") and hasattr(got, "t") and type(got) is type(want.obj) and not isinstance(got, (SSeq, SInt, SBool)):
             return bool(got.t.eq(want.obj.t))      # an unexplored reference has no identity of its own: same term
